@@ -3,5 +3,6 @@ open PgmVerif
 #print axioms PgmVerif.C08_saturate_closed
 #print axioms PgmVerif.C08_saturate_sound
 #print axioms PgmVerif.C08_reach_exact
+#print axioms PgmVerif.C08_reach_iff_active_trail
 #print axioms PgmVerif.C08_ancestors_exact
 #print axioms PgmVerif.C08_blanket_spec
